@@ -15,7 +15,7 @@ FUNCS = [
     "qlasskit.ast2logic.t_statement.translate_statement (inline FunctionDef)",
     "qlasskit.algorithms.qalgorithm.oraclize",
 ]
-BOUNDS = "callee x call-shape x naming x mechanism universe below (~500 pairs), both optimizer profiles for the caller; every caller argument value symbolic"
+BOUNDS = "generated family compose-rand (400 caller/callee(s) triples: generated callees g, k with scalar/tuple/list formals, generated multi-statement callers calling them with variable, element, compound, literal actuals; both mechanisms) + callee x call-shape x naming x mechanism universe below (~500 pairs), both optimizer profiles for the caller; every caller argument value symbolic"
 OUTSIDE = "caller/callee texts are enumerated; recursion and callees with parameters are not exercised"
 ASSUMPTIONS = [
     "RefSem interprets a call by interpreting the callee's own AST on the actual values (coerced to the declared formal types)",
@@ -157,6 +157,46 @@ def universe():
     for csrc, ys in orc:
         for y in ys:
             items.append({"fam": "compose-oraclize", "mech": "oraclize", "callee": csrc, "y": y})
+    # shapes reported on the unchanged tree by a round-4 sub-agent (all confirmed, see DESIGN 11):
+    # formals whose names collide after prefixing, callees re-assigning two of their parameters,
+    # tuple actuals with narrower elements, inline formals shadowing differently typed caller
+    # variables, results of calls used by len/sum/all/for, one callee object used by two callers
+    GA = "def g(a: bool, g_a: bool) -> bool:\n    return a and not g_a\n"
+    G2 = "def g(a: bool, b: bool) -> bool:\n    a = a ^ b\n    b = a and b\n    return a ^ b\n"
+    G3 = "def g(x: Qint[2], y: Qint[2]) -> Qint[2]:\n    x = x + y\n    y = x ^ y\n    return x + y\n"
+    GT4 = "def g(p: Tuple[Qint[4], Qint[4]]) -> Qint[4]:\n    return p[0] + p[1]\n"
+    GTB = "def g(a: Tuple[bool, bool]) -> bool:\n    return a[0] and a[1]\n"
+    ROT = "def g(t: Tuple[bool, bool, bool]) -> Tuple[bool, bool, bool]:\n    return (t[1], t[2], t[0])\n"
+    RQ = "def g(t: Tuple[Qint[2], Qint[2]]) -> Tuple[Qint[2], Qint[2]]:\n    return (t[1], t[0] + 1)\n"
+    agent4 = [
+        (GA, "def caller(x: bool, y: bool) -> bool:\n    return g(x, y)\n"),
+        (GA, "def caller(x: bool, y: bool) -> bool:\n    return g(y, x) ^ g(x, x)\n"),
+        ("def g(g_x: Qint[2], x: Qint[2]) -> Qint[2]:\n    return g_x - x\n", "def caller(p: Qint[2], q: Qint[2]) -> Qint[2]:\n    return g(p, q)\n"),
+        (G2, "def caller(x: bool, y: bool) -> bool:\n    return g(x, y)\n"),
+        (G2, "def caller(x: bool, y: bool) -> bool:\n    return g(y, x and y) ^ x\n"),
+        (G3, "def caller(p: Qint[2], q: Qint[2]) -> Qint[2]:\n    return g(p, q)\n"),
+        (GT4, "def caller(a: bool) -> Qint[4]:\n    return g((1, 2))\n"),
+        (GT4, "def caller(x: Qint[2], y: Qint[2]) -> Qint[4]:\n    return g((x, y))\n"),
+        (GT4, "def caller(x: Qint[2], y: Qint[4]) -> Qint[4]:\n    return g((x, y)) + g((y, x))\n"),
+        (GT4, "def caller(u: Tuple[Qint[2], Qint[2]]) -> Qint[4]:\n    return g(u)\n"),
+        ("def g(p: Tuple[Qint[4], bool]) -> Qint[4]:\n    return (p[0] + 1) if p[1] else p[0]\n", "def caller(x: Qint[2], b: bool) -> Qint[4]:\n    return g((x, b))\n"),
+        (GTB, "def caller(a: Tuple[bool, bool, bool]) -> bool:\n    return g((a[0], a[1])) and all(a)\n"),
+        (GTB, "def caller(a: Tuple[bool, bool, bool]) -> Qint[2]:\n    b = g((a[2], a[1]))\n    return len(a)\n"),
+        ("def g(a: Qint[2]) -> Qint[2]:\n    return a + 1\n", "def caller(a: Qlist[Qint[2], 3]) -> Qint[4]:\n    return g(a[0]) + sum(a)\n"),
+        (ROT, "def caller(t: Tuple[bool, bool, bool]) -> Qint[2]:\n    t = g(t)\n    return len(t)\n"),
+        (ROT, "def caller(t: Tuple[bool, bool, bool]) -> bool:\n    u = g(t)\n    return all(u) or (u[0] and not t[0])\n"),
+        (ROT, "def caller(t: Tuple[bool, bool, bool]) -> bool:\n    u = g(g(t))\n    c = False\n    for x in u:\n        c = c ^ x\n    return c and u[1]\n"),
+        (RQ, "def caller(t: Tuple[Qint[2], Qint[2]]) -> Qint[4]:\n    u = g(t)\n    return sum(u)\n"),
+        (RQ, "def caller(t: Tuple[Qint[2], Qint[2]]) -> Qint[2]:\n    u = g(t)\n    return max(u)\n"),
+    ]
+    for csrc, caller in agent4:
+        for mech in ("defs", "inline", "defs-twice"):
+            items.append({"fam": "compose-shapes4", "mech": mech, "callee": csrc, "caller": caller})
+    from .. import corpus2
+
+    for it in corpus2.u_compose2(400):
+        for mech in ("defs", "inline"):
+            items.append(dict(it, mech=mech))
     out, seen = [], set()
     for it in items:
         for opt in ("default", "fast"):
@@ -172,7 +212,8 @@ def make_items(tier, seed):
     u = universe()
     if tier == "thorough":
         return u
-    core = [sp for sp in u if sp["fam"] in ("compose-oraclize", "compose-naming", "compose-two")] + [sp for i, sp in enumerate(u) if sp["fam"] not in ("compose-oraclize", "compose-naming", "compose-two") and i % 9 == 0]
+    rnd_items = [sp for sp in u if sp["fam"] == "compose-rand"]
+    core = rnd_items[:160] + [sp for sp in u if sp["fam"] in ("compose-oraclize", "compose-naming", "compose-two", "compose-shapes4")] + [sp for i, sp in enumerate(u) if sp["fam"] not in ("compose-oraclize", "compose-naming", "compose-two", "compose-rand", "compose-shapes4") and i % 9 == 0]
     rest = [sp for sp in u if sp not in core]
     return slice_quick(core + rest, seed, len(core), 250)
 
@@ -196,13 +237,31 @@ def check_item(spec):
     cdef = ast.parse(spec["callee"]).body[0]
     callee2 = cdef2 = None
     if spec.get("callee2"):
-        callee2 = qlassf(spec["callee2"], to_compile=False)
+        try:
+            callee2 = qlassf(spec["callee2"], to_compile=False)
+        except Exception as e:
+            res.update(cls="callee-rejected", note=type(e).__name__)
+            return res
         cdef2 = ast.parse(spec["callee2"]).body[0]
     fp0 = fingerprint(callee)
     lf0 = repr(callee.to_logicfun())
     try:
-        if spec["mech"] == "defs":
-            qf = qlassf(spec["caller"], defs=[callee] + ([callee2] if callee2 else []), to_compile=False, bool_optimizer=P)
+        if spec["mech"] in ("defs", "defs-twice"):
+            if spec["mech"] == "defs-twice":
+                # one description of the callee handed to two translations: the second must not see
+                # what the first did to it
+                import ast as _ast
+
+                from qlasskit import QlassF as _QF
+
+                lf = callee.to_logicfun()
+                try:
+                    _QF.from_function("def other(zz: bool) -> bool:\n    return zz\n", defs=[lf], to_compile=False)
+                except Exception:
+                    pass
+                qf = _QF.from_function(spec["caller"], defs=[lf], to_compile=False, bool_optimizer=P)
+            else:
+                qf = qlassf(spec["caller"], defs=[callee] + ([callee2] if callee2 else []), to_compile=False, bool_optimizer=P)
             ref_src, funs = spec["caller"], {cdef.name: cdef}
             if cdef2 is not None:
                 funs[cdef2.name] = cdef2
